@@ -17,6 +17,8 @@ func main() {
 		runTable(os.Args[2:])
 	case "hand":
 		runHand(os.Args[2:])
+	case "actor":
+		runActor(os.Args[2:])
 	case "ogm":
 		runOGM(os.Args[2:])
 	case "ogmstress":
